@@ -405,6 +405,14 @@ def gen_basis_cases(pid, what, seed, tier, lmax, count, extra, start_id, with_se
             cens = [cg.center(rng) for _ in range(3)]
             basis = [cg.shell(rng, rng.randint(0, lmax), bits=bits, cen=rng.choice(cens) if rng.random() < 0.6 else None)
                      for _ in range(n)]
+            if d % 4 == 2 and rng.random() < 0.6:
+                # two distinct shells over the same primitives (same centre, l, exponents, M >= 2; other coefficients)
+                k = rng.randrange(len(basis))
+                basis.insert(k + 1, cg.sibling(rng, basis[k]))
+                if rng.random() < 0.5:
+                    basis[k], basis[k + 1] = basis[k + 1], basis[k]
+                if len(basis) > max(nmax, 2):
+                    basis.pop(rng.choice([i for i in range(len(basis)) if i not in (k, k + 1)]))
         c = {"id": start_id + d, "pid": pid, "what": what, "kind": "basis", "basis": basis, "spread": d % 4 == 1, "far": d % 4 == 3}
         if with_second and d % 2 == 0 and d % 4 != 3 and d % 4 != 1:
             c["basis2"] = [cg.shell(rng, rng.randint(0, lmax), bits=bits,
